@@ -24,7 +24,7 @@ class C02(Harness):
         "empty-rejected",
     )
     stubs = ()
-    assumptions = ("RangeIndex construction: step >= 1", "integer indices only")
+    assumptions = ("RangeIndex construction: step in -3..-1 or >= 1 (symbolic)", "integer indices only")
     outside = ("DatetimeIndex / PeriodIndex horizons and Timestamp / Period cutoffs", "horizons longer than the stated number of steps")
 
     def bounds(self, tier):
@@ -36,6 +36,8 @@ class C02(Harness):
             for rel in (True, False):
                 for how in ("array", "list", "index", "range") + (("int",) if k == 1 else ()):
                     out.append({"name": "%s-%s-k%d" % ("rel" if rel else "abs", how, k), "kind": "conv", "rel": rel, "how": how, "K": k, "cost": k * k})
+                if k <= 2:
+                    out.append({"name": "%s-array-k%d-concrete-cutoff" % ("rel" if rel else "abs", k), "kind": "conv", "rel": rel, "how": "array", "K": k, "concrete_cutoff": True, "cost": k * k})
         out.append({"name": "faults", "kind": "faults", "cost": 1})
         return out
 
@@ -47,10 +49,14 @@ class C02(Harness):
             return {"frac": r, "v": v}
         K = cell["K"]
         inp = {"c": ctx.fresh_int("c"), "start": ctx.fresh_int("start")}
+        if cell.get("concrete_cutoff"):
+            # a concrete cutoff exercises value-keyed caches (a symbolic one cannot be hashed)
+            ctx.assume((inp["c"] >= -1) & (inp["c"] <= 1))
+            inp["c"] = int(inp["c"])
         if cell["how"] == "range":
             inp["r0"] = ctx.fresh_int("r0")
             inp["step"] = ctx.fresh_int("step")
-            ctx.assume(inp["step"] >= 1)
+            ctx.assume((inp["step"] >= -3) & (inp["step"] != 0))
         else:
             inp["v"] = fresh_ints(ctx, "v", K)
         return inp
@@ -82,8 +88,12 @@ class C02(Harness):
         except ValueError:
             return {"rejected": True}
         out = {"rejected": False, "values": L(fh.to_pandas()), "is_relative": fh.is_relative}
+        if cell.get("concrete_cutoff"):
+            fh.is_all_out_of_sample(c)  # a query through the other representation first, on the same object
         a = fh.to_absolute(c)
         r = fh.to_relative(c)
+        a2 = fh.to_absolute(c)
+        out["abs_again"] = L(a2.to_pandas())
         out["abs"] = L(a.to_pandas())
         out["rel"] = L(r.to_pandas())
         out["abs_flag"] = a.is_relative
@@ -170,6 +180,8 @@ class C02(Harness):
         relv = vals if rel else [x - c for x in vals]
         absv = [x + c for x in vals] if rel else vals
         for a, w in zip(out["abs"], absv):
+            P.eq("to-absolute", a, w)
+        for a, w in zip(out["abs_again"], absv):
             P.eq("to-absolute", a, w)
         for a, w in zip(out["rel"], relv):
             P.eq("to-absolute", a, w)
